@@ -2077,6 +2077,12 @@ def _update_all_results(
             )
     else:
         all_results[func.output_name] = r
+        if isinstance(func.output_name, tuple) and not lazy:
+            # The tuple itself was requested; the individual outputs are results, too
+            # (e.g., needed by `full_output=True` and by `NestedPipeFunc`).
+            assert func.output_picker is not None
+            for name in func.output_name:
+                all_results[name] = func.output_picker(r, name)
 
 
 def _execute_func(func: PipeFunc, func_args: dict[str, Any], lazy: bool) -> Any:  # noqa: FBT001
